@@ -69,10 +69,16 @@ def _expected_structs(reach):
     return sorted(exp)
 
 
+LAYOUTS = ["imports-first", "annotation-before-imports", "annotation-after-first-import", "comment-and-pi-between-imports",
+           "import-with-annotation-child", "schemaLocation-before-namespace", "annotation-after-every-import"]
+
+
 def _judge_c11(v, job, res, stats):
     n, mask, start = job["n"], job["mask"], job["start_idx"]
     shape = _shape(n, mask, start)
-    where = {"n": n, "mask": mask, "start": start, "dup": job.get("dup", False),
+    if job.get("layout"):
+        shape += "|import-layout=" + LAYOUTS[job["layout"]]
+    where = {"n": n, "mask": mask, "start": start, "dup": job.get("dup", False), "layout": LAYOUTS[job.get("layout", 0)],
              "edges": [(i, j) for i in range(n) for j in range(n) if mask >> (i * n + j) & 1]}
     if res.get("watchdog"):
         stats["inconclusive"] += 1
@@ -165,6 +171,24 @@ def c11(tier):
             if n == 3 and tier == "quick" and r.random() > 0.25:
                 continue
             jobs.append({"op": "c11graph", "n": n, "mask": mask, "start_idx": r.randrange(n), "dup": True})
+    # what XSD allows around the imports (annotation*, comments, non-empty import elements, attribute order)
+    for layout in range(1, len(LAYOUTS)):
+        for n in [1, 2, 3]:
+            for mask in range(1 << (n * n)):
+                if mask == 0:
+                    continue
+                for s in range(n):
+                    if n == 3 and tier == "quick" and r.random() > 0.2:
+                        continue
+                    jobs.append({"op": "c11graph", "n": n, "mask": mask, "start_idx": s, "layout": layout,
+                                 "dup": r.random() < 0.1})
+        for k in range(40 if tier == "quick" else 1500):
+            n = r.randrange(4, 8)
+            mask = 0
+            for b in range(n * n):
+                if r.random() < 0.3:
+                    mask |= 1 << b
+            jobs.append({"op": "c11graph", "n": n, "mask": mask, "start_idx": r.randrange(n), "layout": layout})
     # random graphs over 5..8 files, sparse and dense
     for k in range(96 if tier == "quick" else 4000):
         n = r.randrange(5, 9)
@@ -287,7 +311,9 @@ def c11(tier):
         "distinct_nontrivial": sum(1 for j in jobs if bin(j["mask"]).count("1") > 0),
         "rule": "import graphs as adjacency masks over files f0..f(n-1) (bit i*n+j: fi imports fj; self-loops allowed), rendered by "
                 "zdrive with two uniquely named components per file and cross-file type references along the edges; "
-                "quick: every graph over n<=3 files x every start file (exhaustive), duplicated <xs:import> variants, "
+                "quick: every graph over n<=3 files x every start file (exhaustive), duplicated <xs:import> variants, import layouts (schema-level annotation before / between / after the imports, "
+                "comment and processing instruction between them, non-empty import elements, attribute order) over every graph of n<=2 files "
+                "and a sample of 3-7 file graphs, "
                 "random graphs over 5-8 files, a seeded sample of 4-file graphs; thorough: every graph over n<=4 x every start "
                 "(2^16 x 4). Non-trivial = at least one import edge; distinct = distinct (n, mask, start, dup) tuples (all jobs are "
                 "distinct by construction). Oracle: multiset of struct names in the output (parsed with syn) == components of the "
@@ -296,7 +322,8 @@ def c11(tier):
         "exhaustive": True,
         "exhaustive_scope": f"all graphs over n<={sizes[-1]} files x all start files ({n_exhaustive} runs); the 5-8 file graphs are sampled",
         "graphs_run": len(jobs), "outcomes": stats["outcomes"], "components_compared": stats["components_compared"],
-        "reachable_shapes_seen": shapes, "sibling_comparisons": sib_compared, "sibling_variants": sib_variants,
+        "reachable_shapes_seen": shapes,
+        "import_layouts": {LAYOUTS[k]: sum(1 for j in jobs if j.get("layout", 0) == k) for k in range(len(LAYOUTS))}, "sibling_comparisons": sib_compared, "sibling_variants": sib_variants,
         "inconclusive_cases": stats["inconclusive"],
         "samples": [
             {"n": j["n"], "mask": j["mask"], "start": j["start_idx"],
